@@ -13,7 +13,7 @@ import os
 
 from harness.common import ASSUME, FAIL, PASS, check, tape_harness  # noqa: F401
 from engine import verdicts as _V
-from harness.frames import REPR_MSG, CodeView, FakeFrame, ListLogger, RETURN_OPS, in_flight, representation_ok, seed_function
+from harness.frames import AT_RAISE, AT_RETURN, REPR_MSG, CodeView, FakeFrame, ListLogger, RETURN_OPS, in_flight, representation_ok, seed_function
 from vfix import funcs as F
 
 import monkeytype.config as MC
@@ -53,10 +53,10 @@ def gate_body(t, admit, admit2, with_filter):
         fr = FakeFrame(cv, {n: 1 for n in func.__code__.co_varnames[:nparams]})
         seed_function(tracer, cv, func)
         before = len(logger.traces)
-        cv.co_code = [0]
+        fr.f_lasti = AT_RAISE
         tracer(fr, "call", None)
         started = in_flight(tracer, fr)
-        cv.co_code = [sorted(RETURN_OPS)[0]]
+        fr.f_lasti = AT_RETURN
         tracer(fr, "return", 1)
         recorded[id(cv)] = (started, len(logger.traces) == before + 1)
     for cv, adm in ((cv1, admit), (cv2, admit2)):
@@ -95,10 +95,10 @@ def _recycled_gate(func, name, admit, admit2, with_filter):
         if want:
             seed_function(tracer, cv, func)  # (a rejected code object never reaches the function cache)
         before = len(logger.traces)
-        cv.co_code = [0]
+        fr.f_lasti = AT_RAISE
         tracer(fr, "call", None)
         started = in_flight(tracer, fr)
-        cv.co_code = [sorted(RETURN_OPS)[0]]
+        fr.f_lasti = AT_RETURN
         tracer(fr, "return", 1)
         results.append((tag, started, len(logger.traces) == before + 1, want))
         if want:
